@@ -71,6 +71,17 @@ partial def loop (h : IO.FS.Stream) (out : IO.FS.Stream) (s : H) : IO Unit := do
   match toks with
   | ["new"] => out.putStrLn "new"; loop h out {}
   | _ =>
+    match toks with
+    | ["burst", k, parts] =>
+      let ups := (parts.splitOn ",").map fun p =>
+        match p.splitOn ":" with
+        | [st, e] => Ev.connUpdate (uh k) (st.toNat?.getD 0) (e == "1")
+        | _ => Ev.connUpdate (uh k) 0 false
+      let r := ups.foldl (fun (r : H × List Obs) e => ((step r.1 e).1, r.2 ++ (step r.1 e).2)) (s, [])
+      let r2 := step r.1 .settle
+      out.putStrLn (outLine r2.1 (r.2 ++ r2.2))
+      loop h out r2.1
+    | _ =>
     match parseEv toks with
     | some e =>
       let r := step s e
